@@ -4,7 +4,7 @@ from __future__ import annotations
 
 from .. import terms as tm
 from ..model import AnalysisError
-from .common import ob, need, call_name, facts, role_of, roles, count_form
+from .common import ob, need, call_name, facts, role_of, roles, count_form, nonempty_bases
 from .. import symeval
 from . import c01
 
@@ -615,6 +615,98 @@ def rule_emptyreduce(ctx):
     need(n >= 3, R, "reductions of np.diff not found (goto, continuity, standard_FPR)")
 
 
+# ------------------------------------------------------------------ EMPTYREAD
+
+EMPTYREAD_REVIEWED = {
+    "beat._get_entropy": "private helper; information_gain returns 0 before calling it when either side has <= 1 beat",
+    "chord.directional_hamming_distance": "segmentation scores of an empty reference are undefined; chord.evaluate reaches it only with a non-empty, span-adjusted pair (C12.PIPELINE)",
+    "util.merge_labeled_intervals": "called on annotations that adjust_intervals has made non-empty (it raises on an empty annotation without bounds and pads otherwise)",
+    "hierarchy.validate_hier_intervals": "a hierarchy is a non-empty list of segmentations by the task's own definition",
+    "melody.resample_melody_series": "frequencies[0] == frequencies[1] is the right operand of `or` after np.allclose on the time deltas, which is vacuously true for fewer than two samples",
+}
+
+
+def _rejects_empty(ctx, callee, qparam):
+    """does ``callee`` raise when its parameter ``qparam`` is empty?"""
+    if not ctx.program.has_func(callee):
+        return False
+    s = ctx.S.get(callee)
+    Q = tm.param(qparam)
+    for r in s.by_kind("raise"):
+        for c, pol in facts(r.pc):
+            if c.op == "cmp" and c.a[0] == "==" and pol and any(tm.is_const(z, 0) for z in c.a[1:]):
+                for z in c.a[1:]:
+                    cf = count_form(z)
+                    if cf is not None and cf[1] is Q:
+                        return True
+    return False
+
+
+def rule_emptyread(ctx):
+    """An element of an input array is read by constant position only where the array is known to be non-empty: a
+    test on the path, an earlier validator call that raises on an empty array, or a reviewed reason.  Otherwise an
+    empty but valid annotation (the metric functions define 0 for it) fails with IndexError."""
+    R = "C14.EMPTYREAD"
+    n = 0
+    seen_funcs = set()
+    for f in ctx.program.all_funcs():
+        if f.module.name in ("display", "sonify", "separation", "io"):
+            continue
+        s = ctx.S.get(f.qual)
+        reads = {}
+        for st in s.by_kind("subscript"):
+            t = st.d.get("term")
+            if t is None or t.op != "sub":
+                continue
+            B, I = t.a
+            if B.op != "param":
+                continue
+            isnum = lambda z: z.op == "const" and isinstance(z.a[0], (int, float)) and not isinstance(z.a[0], bool)
+            if not (isnum(I) or (I.op == "tuple" and I.a and isnum(I.a[0]))):
+                continue
+            reads.setdefault(B.a[0], []).append((st, t))
+        for pname, sts in sorted(reads.items()):
+            P = tm.param(pname)
+            bad = []
+            why_ok = None
+            for st, t in sts:
+                ne = [b for k, b in nonempty_bases(st.pc)]
+                if any(b is P for b in ne):
+                    why_ok = "a test on the path proves %s non-empty" % pname
+                    continue
+                # reached only after a first-element test of another input array (reported there, once)
+                first = [x for c, _pol in symeval.pc_conds(st.pc) for x in tm.walk(c) if x.op == "sub" and x.a[0].op == "param" and x.a[0] is not P and x.a[1].op == "const"]
+                if first:
+                    why_ok = "reached only under a test that already read %s" % tm.show(first[0], 2)
+                    continue
+                # earlier unconditional call of a repo function that rejects an empty array bound to this parameter
+                val = None
+                for c in s.calls():
+                    if c.node.lineno >= st.node.lineno or c.fn is None or c.fn.op not in ("func", "localfunc"):
+                        continue
+                    callee = tm.callee_name(c.fn)
+                    if not ctx.program.has_func(callee):
+                        continue
+                    g = ctx.program.func(callee)
+                    for i, a in enumerate(c.args):
+                        if a is P and i < len(g.params) and _rejects_empty(ctx, callee, g.params[i]):
+                            val = callee
+                if val is not None:
+                    why_ok = "%s, called first, raises ValueError on an empty %s" % (val, pname)
+                    continue
+                bad.append(tm.show(t, 2))
+            n += 1
+            seen_funcs.add(f.qual)
+            if bad and f.qual in EMPTYREAD_REVIEWED:
+                yield ob(R, f, "%s:%s" % (f.qual, pname), True, "reviewed: %s" % EMPTYREAD_REVIEWED[f.qual], node=sts[0][0].node)
+            else:
+                yield ob(R, f, "%s:%s" % (f.qual, pname), not bad, why_ok or "no positional read", node=sts[0][0].node) if not bad else ob(R, f, "%s:%s" % (f.qual, pname), False, "reads %s with no test, validator or reviewed reason that %s is non-empty: an empty (valid, warned-about) annotation raises IndexError here" % (", ".join(sorted(set(bad))), pname), node=sts[0][0].node)
+    stale = sorted(set(EMPTYREAD_REVIEWED) - seen_funcs)
+    if stale:
+        raise AnalysisError(R, "reviewed functions no longer contain a positional read: %s" % ", ".join(stale))
+    need(n >= 10, R, "positional reads of input arrays not enumerated")
+
+
 RULES = [
     ("C14.VALIDATEFIRST", 70, rule_validatefirst),
     ("C14.RAISETYPES", 80, rule_raisetypes),
@@ -627,4 +719,5 @@ RULES = [
     ("C14.INDEXGUARD", 2, rule_indexguard),
     ("C14.NONEGUARD", 3, rule_noneguard),
     ("C14.EMPTYREDUCE", 3, rule_emptyreduce),
+    ("C14.EMPTYREAD", 10, rule_emptyread),
 ]
